@@ -10,6 +10,7 @@
 #include <unistd.h>
 #include <fftw3.h>
 #include <set>
+#include <cmath>
 
 namespace simrt {
 
@@ -21,6 +22,8 @@ static bool g_atexit_registered = false;
 static std::set<int>& g_fault_fds = *new std::set<int>;
 static long g_fault_matches = 0;
 static bool g_summary_written = false;
+struct C2RPlan { fftwf_complex* in; int n; };
+static std::map<fftwf_plan, C2RPlan>& g_c2r = *new std::map<fftwf_plan, C2RPlan>;
 
 // after the summary has been written (atexit), later events are appended to it line by line
 static void late_append(const std::string& line) {
@@ -54,6 +57,7 @@ void write_summary() {
     o += "planner_calls=" + std::to_string(g_st.planner_calls) + "\n";
     o += "wisdom_imports=" + std::to_string(g_st.wisdom_imports) + "\n";
     o += "wisdom_exports=" + std::to_string(g_st.wisdom_exports) + "\n";
+    o += "scribbles=" + std::to_string(g_st.scribbles) + "\n";
     o += "io_writes=" + std::to_string(g_st.io_writes) + "\n";
     o += "io_reads=" + std::to_string(g_st.io_reads) + "\n";
     o += "io_opens=" + std::to_string(g_st.io_opens) + "\n";
@@ -160,7 +164,28 @@ extern "C" fftwf_plan __wrap_fftwf_plan_dft_c2r_1d(int n, fftwf_complex* in, flo
         event("PLAN c2r " + std::to_string(n) + " mode" + std::to_string(g_cfg.planner_mode));
         if (g_cfg.planner_mode == 0) flags = FFTW_ESTIMATE;
     }
-    return __real_fftwf_plan_dft_c2r_1d(n, in, out, flags);
+    fftwf_plan pl = __real_fftwf_plan_dft_c2r_1d(n, in, out, flags);
+    if (pl) g_c2r[pl] = C2RPlan{in, n};
+    return pl;
+}
+extern "C" void __real_fftwf_execute(const fftwf_plan p);
+extern "C" void __wrap_fftwf_execute(const fftwf_plan p) {
+    __real_fftwf_execute(p);
+    if (g_cfg.active && g_cfg.c2r_scribble) {
+        auto it = g_c2r.find(p);
+        if (it != g_c2r.end()) {
+            g_st.scribbles++;
+            for (int i = 0; i <= it->second.n / 2; i++) {
+                float v = g_cfg.c2r_scribble == 2 ? NAN : 1e3f * (float)(1 + (i * 7 + g_st.scribbles) % 13);
+                it->second.in[i][0] = v; it->second.in[i][1] = -v;
+            }
+        }
+    }
+}
+extern "C" void __real_fftwf_destroy_plan(fftwf_plan p);
+extern "C" void __wrap_fftwf_destroy_plan(fftwf_plan p) {
+    g_c2r.erase(p);
+    __real_fftwf_destroy_plan(p);
 }
 extern "C" int __wrap_fftwf_import_wisdom_from_filename(const char* fn) {
     if (g_cfg.active) {
